@@ -261,7 +261,7 @@ def load_corpus(pid):
 
 
 def run_link_property(ctx, pid, gen_cases, oracle, classify, rule, nontrivial, assumptions,
-                      extra_targets=(), model_filter=None, known_class=None, extra_cov=None, hang_is_failure=False):
+                      extra_targets=(), model_filter=None, known_class=None, extra_cov=None, hang_is_failure=False, side_findings=None):
     verdict = C.Verdict(ctx)
     rng = C.Rng(ctx.seed).fork(pid)
     proof = C.proof_step(ctx, verdict, pid, extra_targets=["Run/LinkRun.vo"] + list(extra_targets))
@@ -307,6 +307,12 @@ def run_link_property(ctx, pid, gen_cases, oracle, classify, rule, nontrivial, a
         mism = model_verdicts(ctx, cases, results, idx, pid.lower())
     ctx.log("oracle failures: %d, model mismatches: %d" % (len(failing), len(mism)))
 
+    # scenario families of the property that do not go through the virtual-time link harness (real sockets, real server)
+    side, side_cov = ([], {})
+    if side_findings is not None:
+        side, side_cov = side_findings(ctx, proof)
+        for key, what, rp in side[:3]:
+            verdict.add(key, what, rp)
     reported = set()
     for _, i, w in failing:
         key = classify(w) if known_class is None else (known_class(cases[i], results[i], w) or classify(w))
@@ -325,7 +331,7 @@ def run_link_property(ctx, pid, gen_cases, oracle, classify, rule, nontrivial, a
         verdict.add(key, (w if (r_small or {}).get("hang") else oracle(small, r_small)) or w,
                     {"kind": "failing-input", "case": small, "observed": r_small, "oracle": w,
                      "model_predicts": model_trace(ctx, small, pid.lower() + "_trace") if model_ok else None})
-    if not failing:
+    if not failing and not side:
         if not proof["build_ok"]:
             verdict.add("proof-broken",
                         "proof obligation of %s no longer checks (%s) and no failing script was found among %d"
@@ -354,6 +360,8 @@ def run_link_property(ctx, pid, gen_cases, oracle, classify, rule, nontrivial, a
     }
     if extra_cov:
         cov.update(extra_cov(cases, results))
+    cov.update(side_cov)
+    cov["oracle_failures"] += len(side)
     C.write_evidence(ctx, cov, assumptions, nviol)
     return rc
 
